@@ -199,7 +199,9 @@ Theorem as4_path_roundtrip :
       segs_of b = Ok segs /\
       (existsb seg_wide segs = false ->
          w = [mk_bin 2 (flat_map enc_seg2 segs)] /\ map seg_down segs = segs) /\
-      (existsb seg_wide segs = true ->
+      (existsb seg_wide segs = true -> filter not_confed segs = [] ->
+         w = [mk_bin 2 (flat_map enc_seg2 segs)]) /\
+      (existsb seg_wide segs = true -> filter not_confed segs <> [] ->
          w = [mk_bin 2 (flat_map enc_seg2 segs); mk_bin 17 (flat_map enc_seg4 (filter not_confed segs))] /\
          as4_reconcile (map seg_down segs) (filter not_confed segs) = filter not_confed segs /\
          (forallb not_confed segs = true -> as4_reconcile (map seg_down segs) (filter not_confed segs) = segs)).
@@ -211,7 +213,9 @@ Check as4_path_roundtrip :
       segs_of b = Ok segs /\
       (existsb seg_wide segs = false ->
          w = [mk_bin 2 (flat_map enc_seg2 segs)] /\ map seg_down segs = segs) /\
-      (existsb seg_wide segs = true ->
+      (existsb seg_wide segs = true -> filter not_confed segs = [] ->
+         w = [mk_bin 2 (flat_map enc_seg2 segs)]) /\
+      (existsb seg_wide segs = true -> filter not_confed segs <> [] ->
          w = [mk_bin 2 (flat_map enc_seg2 segs); mk_bin 17 (flat_map enc_seg4 (filter not_confed segs))] /\
          as4_reconcile (map seg_down segs) (filter not_confed segs) = filter not_confed segs /\
          (forallb not_confed segs = true -> as4_reconcile (map seg_down segs) (filter not_confed segs) = segs)).
